@@ -45,13 +45,50 @@ let events_of_rec = function
   | RBoot l -> List.map (sx_hcall "boot") l
 
 (* ---- parsing ---- *)
+(* an item: (number provides requires copy hib leaf [alias extras]); alias > 0: Name() = "n<alias>" (shared by several
+   items); extras: undeclared keys returned besides the default one (see harness/cmd/c14/main.go).  The model's i_name is
+   the unique declared number: Run uses Name() only in messages and for the timing table *)
 let item_of_sx s =
   match list_of_sx s with
-  | [name; prov; req; cp; hib; leaf] ->
-      { i_name = ni (int_of_sx name); i_provides = List.map ni (ints_of_sx prov);
-        i_requires = List.map ni (ints_of_sx req); i_copy = bool_of_sx cp; i_hib = bool_of_sx hib;
-        i_leaf = bool_of_sx leaf }
+  | name :: prov :: req :: cp :: hib :: leaf :: rest ->
+      let alias, extras = (match rest with [a; e] -> (int_of_sx a, ints_of_sx e) | [] -> (0, []) | _ -> failwith "item") in
+      ({ i_name = ni (int_of_sx name); i_provides = List.map ni (ints_of_sx prov);
+         i_requires = List.map ni (ints_of_sx req); i_copy = bool_of_sx cp; i_hib = bool_of_sx hib;
+         i_leaf = bool_of_sx leaf }, alias, extras)
   | _ -> failwith "item"
+
+(* the twin of the recording items: the extracted rec_sem, wrapped for the behaviours added with the attribute streams
+   (undeclared extra keys, a nil result map, an error at the replay of a merge commit).  The interpreter [run] is the
+   extracted one; the theorems of C14 hold for every item behaviour *)
+let sem2 items inj (xk, xi, xidx) extras : (rst, n) sem =
+  let base = rec_sem items inj in
+  let consume j s d =
+    let (s', r) = base.s_consume j s d in
+    match r with
+    | CErr _ -> (s', r)
+    | COk outs ->
+        let jj = int_of_nat j in
+        let idx = (match dlookup k_index d with Some (VIndex i) -> int_of_n i | _ -> 0) in
+        let mg = (match dlookup k_merge d with Some (VMerge true) -> true | _ -> false) in
+        if xk = "errm" && jj = xi && mg && idx >= xidx then (s', CErr (ni 1))
+        else if xk = "nil" && jj = xi && idx = xidx then (s', COk [])
+        else
+          let ex = (try List.nth extras jj with _ -> []) in
+          if ex = [] then (s', r) else begin
+            (* the last element of outs is the default undeclared key, its value is the digest of the call *)
+            let rec split = function [x] -> ([], x) | x :: r -> let (a, l) = split r in (x :: a, l) | [] -> failwith "outs" in
+            let (decl, (dk, dig)) = split outs in
+            let prov = List.map int_of_n (List.nth items jj).i_provides in
+            let nodef = List.mem (-2) ex in
+            let start = if nodef then decl else decl @ [(dk, dig)] in
+            let rec add acc seen = function
+              | [] -> acc
+              | e :: r ->
+                  if e < 0 || List.mem e prov || List.mem e seen || (not nodef && e = 1000 + jj) then add acc seen r
+                  else add (acc @ [(ni e, mix dig (ni (e + 500)))]) (e :: seen) r in
+            (s', COk (add start [] ex))
+          end in
+  { base with s_consume = consume }
 
 let index_of x l =
   let rec go i = function [] -> -1 | y :: r -> if x = y then i else go (i + 1) r in go 0 l
@@ -62,8 +99,15 @@ let () =
     if field_opt "initfail" obs <> None then count "initfail" else begin
     let declared = List.map item_of_sx (args (field "items" c)) in
     let order = List.map int_of_sx (args (field "order" obs)) in
-    let items = List.map (fun nm ->
-        try List.find (fun it -> int_of_n it.i_name = nm) declared with Not_found -> failwith "order names an unknown item") order in
+    let items3 = List.map (fun nm ->
+        try List.find (fun (it, _, _) -> int_of_n it.i_name = nm) declared with Not_found -> failwith "order names an unknown item") order in
+    let items = List.map (fun (it, _, _) -> it) items3 in
+    let extras = List.map (fun (_, _, e) -> e) items3 in
+    (* how Run names item number p in "did not return" *)
+    let name_atom p = (match List.nth items3 p with (it, a, _) -> if a > 0 then "n" ^ string_of_int a else string_of_int (int_of_n it.i_name)) in
+    if List.exists (fun (_, a, _) -> a > 0) items3 then count "runs_with_same_named_items";
+    if List.exists (fun (_, _, e) -> e <> []) items3 then count "runs_with_colliding_extra_keys";
+    if field_opt "pa" c <> None then count "runs_with_print_actions";
     let nitems = List.length items in
     let times = Hashtbl.create 16 in
     (* committer times as the implementation read them *)
@@ -95,6 +139,11 @@ let () =
            | "boot" -> IBoot (nn p, ni (int_of_sx kk))
            | _ -> INone)
       | _ -> failwith "inject" in
+    let inj2 = match args (field "inject" c) with
+      | [A k; it; kk; _] -> (k, pos_of (int_of_sx it), int_of_sx kk)
+      | _ -> failwith "inject" in
+    if field_opt "printbad" obs <> None then
+      mismatch id ("PrintActions: what Run printed is not the executed prefix of the dumped plan " ^ string_of_sx (field "printbad" obs));
     let glog = args (field "log" obs) in
     let res = field "res" obs in
 
@@ -109,7 +158,19 @@ let () =
     if List.exists (function AOther ((KHibernate | KBoot), _, _) -> true | _ -> false) plan then count "plans_with_hibernation";
 
     (* ---- fine correspondence: the model interpreter on the same plan and items ---- *)
-    let out = rec_run items inj plan (ni ncommits) in
+    let prof = (try Sys.getenv "C14_PROF" <> "" with Not_found -> false) in
+    let t0 = Unix.gettimeofday () in
+    let tick what = if prof then Printf.eprintf "case %d %s %.3f\n%!" id what (Unix.gettimeofday () -. t0) in
+    (* the extracted interpreter is cubic in the plan length (is_merge re-reads the plan with List.rev at every commit
+       step): on the large plans of the scale family only the oracles judge the run (they are the property); the model is
+       still run when one of them fails, to name the first deviating call *)
+    let model_limit = (try int_of_string (Sys.getenv "C14_MODEL_LIMIT") with _ -> 450) in
+    let with_model = List.length plan <= model_limit in
+    let lout = lazy (run (sem2 items inj inj2 extras) items plan (ni ncommits)) in
+    if not with_model then count "large_runs_judged_by_the_oracles_only";
+    if with_model then begin
+    let out = Lazy.force lout in
+    tick "model-run";
     let mevents = List.map sx_fcall out.ro_pre @ List.concat_map events_of_rec out.ro_recs in
     let mevents, mres = match out.ro_out with
       | Done (fins, s) ->
@@ -118,7 +179,7 @@ let () =
            t "res" [A "ok"; sx_int (int_of_z s.sm_begin); sx_int (int_of_z s.sm_end); sx_n s.sm_commits;
                     t "fins" (List.map (fun (a, b, v) -> L [sx_int a; sx_int b; sx_int v]) (List.sort compare fs))])
       | Failed (EMissing (it, e)) ->
-          (mevents, t "res" [A "err"; A "missing"; sx_int (List.nth order (int_of_nat it)); sx_n e])
+          (mevents, t "res" [A "err"; A "missing"; A (name_atom (int_of_nat it)); sx_n e])
       | Failed _ -> (mevents, t "res" [A "err"; A "injected"])
       | Panicked -> (mevents, t "res" [A "panic"]) in
     let gs = List.map string_of_sx glog and ms = List.map string_of_sx mevents in
@@ -135,6 +196,14 @@ let () =
        end;
        if string_of_sx res <> string_of_sx mres then
          mismatch id ("result differs: impl=" ^ string_of_sx res ^ " model=" ^ string_of_sx mres));
+    (* the oracle must accept the model's own log (consistency of oracle and model, every case) *)
+    let mcalls = consume_log out.ro_recs in
+    let mearly = (match out.ro_out with Failed (EHibernate _ | EBoot _) -> true | _ -> false) in
+    tick "events-compared";
+    if out.ro_out <> Panicked && not (log_ok N.eqb mearly plan items plan N0 mcalls) then
+      mismatch id "the log oracle rejects the model interpreter's own log";
+    tick "oracle-on-model-log"
+    end;
 
     (* ---- property oracles on the implementation's own log ---- *)
     let value_of_sx k v : n value =
@@ -171,7 +240,7 @@ let () =
      | c0 :: _ ->
          count "runs_with_item_failure";
          let want = (match call_error c0 with
-           | Some (EMissing (it, e)) -> t "res" [A "err"; A "missing"; sx_int (List.nth order (int_of_nat it)); sx_n e]
+           | Some (EMissing (it, e)) -> t "res" [A "err"; A "missing"; A (name_atom (int_of_nat it)); sx_n e]
            | _ -> t "res" [A "err"; A "injected"]) in
          if is_ok then
            propfail id (Printf.sprintf "item %d failed (error or missing declared output) but Run returned a result: %s"
@@ -179,16 +248,14 @@ let () =
          else if is_err && string_of_sx want <> string_of_sx res then
            propfail id ("Run aborted with a different error than the failing call's: want " ^ string_of_sx want ^ " got " ^ string_of_sx res));
     (* inputs / once / in order / index / merge flag *)
-    let early = is_err && incomplete = [] in
-    (* the oracle must accept the model's own log (consistency of oracle and model, every case) *)
-    let mcalls = consume_log out.ro_recs in
-    let mearly = (match out.ro_out with Failed (EHibernate _ | EBoot _) -> true | _ -> false) in
-    if out.ro_out <> Panicked && not (log_ok N.eqb mearly plan items plan N0 mcalls) then
-      mismatch id "the log oracle rejects the model interpreter's own log";
+    (* a run may stop between two commit steps only because a Hibernate/Boot call failed (observed in the log) *)
+    let hb_failed = List.exists (fun e -> (tag e = "hib" || tag e = "boot") &&
+        (match args e with [_; _; A "0"] -> true | _ -> false)) glog in
+    let early = is_err && incomplete = [] && hb_failed in
     if tag res = "res" && args res <> [A "panic"] then begin
       if not (log_ok N.eqb early plan items plan N0 calls) then begin
         (* name the first deviating call with the help of the model's log when that one passes *)
-    
+        let mcalls = consume_log (Lazy.force lout).ro_recs in    
         let rec first i a b = match a, b with
           | x :: ar, y :: br -> if string_of_sx (sx_call x) = string_of_sx (sx_call y) then first (i + 1) ar br
               else Printf.sprintf "first deviation from the specified log at consume call #%d: got %s, specified %s" i (string_of_sx (sx_call x)) (string_of_sx (sx_call y))
@@ -198,6 +265,7 @@ let () =
         propfail id ("the observed Consume log violates C14 (upstream values / once / resolved order / index / merge flag): " ^ first 0 calls mcalls)
       end else count "log_ok"
     end;
+    tick "oracle-on-impl-log";
     if List.exists (fun (c : n call) -> match dlookup k_merge c.k_deps with Some (VMerge true) -> true | _ -> false) calls then count "runs_with_merge_flag";
     (* summary *)
     (match args res with
